@@ -54,6 +54,9 @@ def gaf_record(draw, name):
     cg, qspan, matches, block = draw(gen_gaf.cigar_for(pe - ps))
     qs = draw(st.integers(0, 9))
     tags = draw(gen_gaf.plain_tags())
+    if draw(st.integers(0, 3)) == 0:
+        tags.insert(draw(st.integers(0, len(tags))), draw(st.sampled_from(
+            ["rg:Z:chr1:1000-2000", "dt:Z:2024-01-01T10:20:30", "xs:i:-5", "sr:Z:a:b", "fl:f:-1.5e-3"])))
     if draw(st.integers(0, 4)) > 0:
         tags.insert(draw(st.integers(0, len(tags))), "cg:Z:" + cg)
     if draw(st.integers(0, 5)) == 0:
@@ -93,7 +96,8 @@ def strategy_(draw, tier):
     if draw(st.booleans()):
         size = sum(len(l) + 1 for l in lines)
         comp = {"cuts": sorted(set(draw(st.lists(st.integers(1, max(1, size - 1)), max_size=3)))), "empty": False}
-    return {"gaf": lines, "tsv": "\n".join([hdr] + body) + "\n", "bgzf": comp}
+    return {"gaf": lines, "tsv": "\n".join([hdr] + body) + "\n", "bgzf": comp,
+            "via": draw(st.sampled_from(["api", "api", "cli", "cli_stdout"]))}
 
 
 def strategy(tier):
@@ -122,14 +126,20 @@ def run_case(case):
             with open(gaf, "wb") as f:
                 f.write(data)
         core.write_text(d + "/h.tsv", case["tsv"])
-        res = core.call(phase.run, gaf, d + "/h.tsv", d + "/out.gaf")
+        via = case.get("via", "api")
+        if via == "api":
+            res = core.call(phase.run, gaf, d + "/h.tsv", d + "/out.gaf")
+        elif via == "cli":
+            res = core.cli(["phase", gaf, d + "/h.tsv", "-o", d + "/out.gaf"])
+        else:  # documented default: standard output
+            res = core.cli(["phase", gaf, d + "/h.tsv"], capture_stdout=True)
         core.check(res[0] == "ok", "phase failed: %s", res)
-        text = core.read_text(d + "/out.gaf")
+        text = res[1] if via == "cli_stdout" else core.read_text(d + "/out.gaf")
     out = text.split("\n")
     if out and out[-1] == "":
         out = out[:-1]
     core.check(len(out) == len(lines), "%d input records, %d output lines", len(lines), len(out))
-    cl = set()
+    cl = {"via:" + case.get("via", "api")}
     kinds = set()
     for a, b in zip(lines, out):
         fa, fb = a.split("\t"), b.split("\t")
